@@ -21,6 +21,7 @@ class Lemma:
     proof: str            # Lean proof text (after `:=`)
     why: str = ""
     imports: tuple = ()   # extra Lean modules the proof needs
+    trigger: str = ""     # L1 expression over the variables: E-matching pattern when the lemma is imported with quantified variables
 
 
 @dataclass
